@@ -194,6 +194,12 @@ fn mk_request(ask: &Ask, id: u16, edns: Option<u16>, dnssec_ok: bool) -> Vec<u8>
     let mut mb = MessageBuilder::new_vec();
     mb.header_mut().set_id(id);
     mb.header_mut().set_rd(true);
+    // Now and then an opcode the server does not implement (answered NOTIMP
+    // by the mandatory middleware, still exactly one response).
+    if sim::chance("req.other_opcode", 1, 16) {
+        mb.header_mut().set_opcode(*sim::pick("req.opcode", &[domain::base::iana::Opcode::STATUS, domain::base::iana::Opcode::NOTIFY, domain::base::iana::Opcode::UPDATE]));
+        sim::stat("probe.request_with_other_opcode");
+    }
     let mut q = mb.question();
     let name = Name::<Vec<u8>>::from_chars(format!("{}.svc.", ask.label()).chars()).unwrap();
     q.push((name, Rtype::TXT)).unwrap();
@@ -218,6 +224,11 @@ fn mk_request(ask: &Ask, id: u16, edns: Option<u16>, dnssec_ok: bool) -> Vec<u8>
         if cookie.is_some() {
             sim::stat("probe.request_with_dns_cookie");
         }
+        // EDNS version 1 (answered BADVERS by the EDNS middleware).
+        let edns_v1 = sim::chance("req.edns_version_1", 1, 16);
+        if edns_v1 {
+            sim::stat("probe.request_with_edns_version_1");
+        }
         // An edns-tcp-keepalive option (meaningless, but harmless, over UDP).
         let keepalive = sim::chance("req.keepalive", 1, 6);
         if keepalive {
@@ -231,6 +242,9 @@ fn mk_request(ask: &Ask, id: u16, edns: Option<u16>, dnssec_ok: bool) -> Vec<u8>
             }
             if keepalive {
                 o.tcp_keepalive(None)?;
+            }
+            if edns_v1 {
+                o.set_version(1);
             }
             Ok(())
         })
@@ -1064,7 +1078,7 @@ fn check(led: &Led, max_response_size: Option<u16>, junk: &[Vec<u8>]) {
                 }
             }
             let n_txt = v.recs.iter().filter(|r| r.section == 1).count() as u32;
-            if s.ask.e == 0 && v.rcode == Rcode::NOERROR && n_txt < s.ask.n && !v.tc {
+            if s.ask.e == 0 && v.full_rcode == 0 && n_txt < s.ask.n && !v.tc {
                 if sim::violation(P, "udp-size", "content-dropped-without-tc", format!("response to k={} has {} of {} records and TC=0", s.ask.k, n_txt, s.ask.n)) {
                     return;
                 }
@@ -1085,7 +1099,7 @@ fn check(led: &Led, max_response_size: Option<u16>, junk: &[Vec<u8>]) {
         // response, whatever the service would have produced.
         let short_circuited = got == 1
             && per_req.get(&i).is_some_and(|v| {
-                dns::view(v[0]).is_some_and(|x| x.recs.iter().all(|r| r.section != 1) && x.rcode != Rcode::NOERROR)
+                dns::view(v[0]).is_some_and(|x| x.recs.iter().all(|r| r.section != 1) && x.full_rcode != 0)
             })
             && (s.ask.e == 4 || s.ask.m > 1 || s.ask.n > 0);
         let want = if short_circuited { 1 } else { s.ask.produces() };
